@@ -9,4 +9,4 @@ Extraction "../ocaml/gen/c14_model.ml" run_context_indices run_same_context cont
    embedding of Model/C14Edit.v).  A second, self-contained file: the driver wraps it in a module `E` (the two token
    vocabularies share constructor names). *)
 Require Tables_lexer Lexer Condense C14Edit.
-Extraction "../ocaml/gen/c14e_model.ml" C14Edit.run_plain_ascii.
+Extraction "../ocaml/gen/c14e_model.ml" C14Edit.run_plain_ascii C14Edit.run_plain_uni.
